@@ -809,14 +809,18 @@ func (l *loopState) resolveExpressions(inputData any, dataModel any) (result any
 	v := reflect.ValueOf(inputData)
 	switch v.Kind() {
 	case reflect.Slice:
-		result := make([]any, v.Len())
+		result := make([]any, 0, v.Len())
 		for i := 0; i < v.Len(); i++ {
 			value := v.Index(i).Interface()
 			newValue, err := l.resolveExpressions(value, dataModel)
 			if err != nil {
 				return nil, fmt.Errorf("failed to resolve workflow slice expressions (%w)", err)
 			}
-			result[i] = newValue
+			if _, isOptional := value.(*infer.OptionalExpression); isOptional && newValue == nil {
+				// An optional item whose source was not produced is left out, like an optional field of a map.
+				continue
+			}
+			result = append(result, newValue)
 		}
 		return result, nil
 	case reflect.Map:
